@@ -31,7 +31,7 @@ func NewInst(dir directive.Directive) *Inst {
 	return &Inst{Ctx: context.Background(), Dir: dir}
 }
 
-func (i *Inst) GetContext() context.Context      { return i.Ctx }
+func (i *Inst) GetContext() context.Context       { return i.Ctx }
 func (i *Inst) GetDirective() directive.Directive { return i.Dir }
 func (i *Inst) GetDirectiveIdent() string         { return i.Dir.GetName() }
 func (i *Inst) GetResolverErrors() []error        { return nil }
@@ -86,7 +86,7 @@ func (h *RH) CountValues(allResolvers bool) int {
 	defer h.Mtx.Unlock()
 	return len(h.Vals)
 }
-func (h *RH) ClearValues() []uint32                                       { return nil }
+func (h *RH) ClearValues() []uint32 { return nil }
 func (h *RH) MarkIdle(idle bool) {
 	h.Mtx.Lock()
 	h.Idle = idle
@@ -99,9 +99,9 @@ func (h *RH) MarkIdle(idle bool) {
 		}
 	}
 }
-func (h *RH) AddValueRemovedCallback(id uint32, cb func()) func()         { return func() {} }
-func (h *RH) AddResolverRemovedCallback(cb func()) func()                 { return func() {} }
-func (h *RH) AddResolver(res directive.Resolver, cb func()) func()        { return func() {} }
+func (h *RH) AddValueRemovedCallback(id uint32, cb func()) func()  { return func() {} }
+func (h *RH) AddResolverRemovedCallback(cb func()) func()          { return func() {} }
+func (h *RH) AddResolver(res directive.Resolver, cb func()) func() { return func() {} }
 
 var _ directive.ResolverHandler = (*RH)(nil)
 
